@@ -208,6 +208,18 @@ func genC07(tier string) []Scenario {
 			}
 		}
 	}
+	// an attempt that RETURNS an error Result (nil error) has succeeded: no retry, no fallback
+	for _, c := range []int{0, 2} {
+		sc := batchScn{name: fmt.Sprintf("per-item error-results n=2 c=%d budget=2 fallback=true", c), n: 2, c: c, budget: 2, fb: true,
+			shape: shResults, yield: c > 0, execMenu: okErrOrErrResultMenu, fbMenu: fbOkOrErr, postMenu: postX, bound: 0, chkPerItem: true, chkPositional: true}
+		out = append(out, sc.scenario())
+	}
+	// the same node object run again with fewer / more items
+	for _, c := range []int{0, 2} {
+		sc := batchScn{name: fmt.Sprintf("per-item runs-of-different-size items=2,1 c=%d budget=1", c), n: 2, nByRun: []int{2, 1}, runs: 2, c: c, budget: 1, fb: true,
+			shape: shResults, yield: c > 0, execMenu: okOrErrMenu, fbMenu: fbOkOrErr, postMenu: postX, bound: 0, chkPerItem: true, chkPositional: true}
+		out = append(out, sc.scenario())
+	}
 	// every route that installs the exec function gives the same per-item treatment
 	for via := viaBuilderAny; via <= viaOptionAny; via++ {
 		for _, c := range []int{0, 2} {
@@ -357,6 +369,12 @@ func genC08(tier string) []Scenario {
 		// the same in stop-on-error mode (nothing fails: the mode alone must not change the limit)
 		sc2 := batchScn{name: fmt.Sprintf("limit-slow-stopmode n=%d c=%d exec=1s", n, c), n: n, c: c, stop: true, budget: 1, shape: shResults, execMenu: okMenu, postMenu: postX, bound: 0, chkLimit: true, execDur: time.Second}
 		out = append(out, sc2.scenario())
+		// ... and with failures, twice on the same node: whatever the first run leaves behind
+		// (items still executing, a stopped flag) must not show in the second
+		sc3 := batchScn{name: fmt.Sprintf("limit-slow-stopmode-with-failures n=%d c=%d exec=1s runs=2", n, c), n: n, c: c, stop: true, budget: 1, shape: shResults, execMenu: okOrErrMenu, postMenu: postX, bound: 0, chkLimit: true, chkPositional: true, execDur: time.Second, fast: []int{0}, runs: 2}
+		if c == 1 {
+			out = append(out, sc3.scenario())
+		}
 	}
 	// items that fail their first attempt and wait before the retry still occupy their worker
 	for _, c := range []int{1, 2} {
